@@ -408,7 +408,7 @@ fn rule_text(prop: &str) -> &'static str {
         "C06" => "layer nestings up to depth 3 under rect/path/empty clips with clear, clip and transform changes inside; non-trivial = at least one pop_layer was compared against the group twin through the kernel; distinct = distinct call-shape sequences",
         "C07" => "call sequences of 1-25 calls over the whole public API on 1-2 surfaces (sizes incl. 0) with degenerate values of every class the statement lists; non-trivial = at least two calls; distinct = distinct call-shape sequences",
         "C10" => "histories of 20-200 calls on one reused target with no-op draws, restarts and twin re-snapshots; non-trivial = at least three drawing calls and at least one no-op perturbation or twin snapshot; distinct = distinct call-shape sequences",
-        "C11" => "histories of 3-12 calls under changing transforms (identity, integer/fractional translation, scale, rotation, shear, general, singular); non-trivial = at least one drawing call was executed under a non-identity transform and compared with its canonicalised form; distinct = distinct call-shape sequences",
+        "C11" => "histories of 3-12 calls under changing transforms (identity, integer/fractional translation, scale, rotation, shear, general, singular); non-trivial = at least one drawing call was executed under a non-identity transform and compared with its canonicalised form; one history in twelve on a small surface is the lattice scenario (gradient and image sources under device = user/k + (k-1)/(2k), k = 2..16, compared with the identity rendering at the pixels (kx, ky)); distinct = distinct call-shape sequences",
         "C14" => "1-8 calls eligible for an optimised route (integer fill_rect incl. zero/negative/off-surface, clear, draw_image_at at integer positions) against the general route (rect path, covering clip, translated-image fill, buggify); non-trivial = at least one eligible call; distinct = distinct call-shape sequences",
         "C15" => "worlds of 2-3 surfaces (sizes incl. 0) with copy/blend/blend-with-alpha transfers between them while transform, clips and layers are open; non-trivial = at least one transfer that changed a destination pixel; distinct = distinct call-shape sequences",
         "C18" => "layered scenes with all blend modes and valid premultiplied inputs (plus multi-surface transfer worlds); non-trivial = at least two drawing calls; distinct = distinct call-shape sequences",
@@ -430,7 +430,10 @@ fn assumptions(prop: &str) -> Vec<&'static str> {
             v.push("clip and layer brackets nest LIFO across both stacks");
         }
         "C07" => v.push("inputs stay inside the stated domain; image source transforms keep image coordinates inside the 16.16 range (C13's domain)"),
-        "C11" => v.push("strokes of curved paths under a non-identity CTM are not compared (the flattening tolerance is an implementation detail)"),
+        "C11" => {
+            v.push("strokes of curved paths under a non-identity CTM are compared geometrically (2 px margin), not bit for bit (the flattening tolerance is an implementation detail)");
+            v.push("lattice correspondence of sources: only for sources whose numbers are dyadic and whose linear parts are non-negative (for these every matrix product is exact and the comparison is bit for bit)");
+        }
         "C19" => v.push("RLIMIT_FSIZE with SIGXFSZ ignored gives a deterministic short write followed by EFBIG at the chosen byte"),
         _ => {}
     }
